@@ -132,13 +132,13 @@ PROPS["C02"] = dict(
     level_text="Deductive proof (Verus) on the real bodies of the three window states, the dispatcher, SharedRateLimiter::acquire and RateLimiter::call: Ok(ZERO) is returned exactly when a permit/log entry/count was consumed "
                "(recorded in the task's trace), a fixed window or bucket is replaced only when it is at least refresh_period old and starts full/empty, available <= limit and current_count <= limit are invariants, the sliding log "
                "evicts exactly the entries at least window_duration old (loop invariant) and admits iff fewer than limit remain; acquire returns Ok iff this task took exactly one permit (also after waiting); the inner call "
-               "is made only with that permit. Per-step inductive clauses; for all limits, periods, timeouts, arrival instants.",
+               "is made only with that permit. Global statement: a history of window starts and admissions (cuts at least refresh_period apart, every admission inside the window it is counted in, at most limit per window) is an invariant of every try_acquire step of the fixed window and the sliding counter (lemma_win_step over the proved clause win_post; lemma_win_init for new), and the spaced admission history is an invariant of the sliding log. For all limits, periods, timeouts, arrival instants.",
     level_note="Mutex critical sections atomic (between two sections any contracted operation of other tasks may have run); monotone clock; refresh_period > 0; limit >= 1 and 'instant + window representable' for the fixed window and the sliding counter only — the sliding log is decided for a limit of zero and for an unrepresentable expiry too (that is how the defect repaired by 6157aac was found). "
-               "Sliding counter: float comparisons are lifted leaves (weighted < limit implies current < limit: Kani); the global 'windows partition time' statement is the induction over the per-step clauses (meta-argument).",
+               "Sliding counter: float comparisons are lifted leaves (weighted < limit implies current < limit: Kani); the global 'windows partition time' statement is machine-checked for all three algorithms: the sliding log through the ghost admission history threaded through the real bodies, the fixed window and the sliding counter through lemma_win_step / lemma_win_init over the clause `win_post` that both try_acquire bodies are proved to satisfy (the history itself is defined by the spec function win_step, it is not ghost state of the bodies).",
     technique="contract-based deductive verification (Verus): state invariants + effect trace; Kani float leaves",
     design_ref="§6 C02",
     assumptions=["std Mutex critical sections are atomic (R8)", "monotone clock", "refresh_period > 0; limit_for_period >= 1 (fixed window, sliding counter; not assumed for the sliding log)", "estimate_wait_time(..) > 0 whenever no slot is free (IEEE assumption)"],
-    trusted=COMMON_TRUST, excluded=["fairness among waiters", "the global window-partition lemma is a meta-argument over the per-step clauses, not a machine-checked lemma"],
+    trusted=COMMON_TRUST, excluded=["fairness among waiters", "fixed window / sliding counter: the window history is folded over the steps by the spec function win_step outside the bodies; that every state change of the shared limiter is a try_acquire step rests on the Mutex shim (R8) and the frame checks"],
 )
 PROPS["C15"] = dict(
     units=["limiter", "builders2"],
